@@ -31,11 +31,15 @@ IDLE_MS = 30
 FINDINGS_FRAGMENT = os.environ.get("VERIF_C18_FRAGMENT") or os.path.join(lib.VERIF, "findings.d", "C18.json")
 # finding key -> name of the repair in WSMux.tla (constant Fixes); the repair is assumed present iff the entry is "fixed"
 FIX_OF_KEY = {"ws:CancelIsolated:foreign_dial": "dial", "ws:CancelIsolated:foreign_write": "write",
-              "ws:CancelIsolated:foreign_close": "close", "ws:bookkeeping:removeConn-by-key": "map"}
+              "ws:CancelIsolated:foreign_close": "close", "ws:bookkeeping:removeConn-by-key": "map",
+              "ws:PingTimeout:spurious": "ping"}
 INV_OF_FIX = {"dial": ["CancelIsolatedDial"], "write": ["CancelIsolatedWrite"], "close": ["CancelIsolatedClose"],
-              "map": ["NoStaleEntry", "AllTracked"]}
+              "map": ["NoStaleEntry", "AllTracked"], "ping": ["NoSpuriousPing"]}
+KEY_OF_BLAME = {"spurious_ping": "ws:PingTimeout:spurious"}
 
 WHAT = {
+    "spurious_ping": "a healthy connection (its upstream answered every ping) was closed by the ping loop as if the pong were overdue, "
+                     "all its subscriptions got a connection error",
     "foreign_dial": "a subscriber that did not cancel got the dialling subscriber's context cancellation from the coalesced dial",
     "foreign_write": "a subscriber with an already cancelled ctx wrote its subscribe frame on the shared connection; "
                      "coder/websocket closed the socket and every other subscription on it failed with a connection error",
@@ -367,14 +371,16 @@ def validate_all(ctx, files):
 
 def report(ctx, binary, sched_by_id, results_by_id, findings, rejected):
     for tid, blame, s in sorted(findings):
-        ctx.violation("ws:CancelIsolated:" + blame,
+        ctx.violation(KEY_OF_BLAME.get(blame, "ws:CancelIsolated:" + blame),
                       "%s (subscriber %s of schedule %s; blame assigned by Trace_WSMux)" % (WHAT.get(blame, blame), s, tid),
                       {"schedule": sched_by_id.get(tid), "result": results_by_id.get(tid), "blame": blame, "subscriber": int(s)})
     retried = 0
     for tid, rows, idx, violated in rejected:
         evn = rows[idx] if 0 <= idx < len(rows) else {"ev": "<eof>"}
         sched = sched_by_id.get(tid)
-        if violated is None and evn.get("ev") in TIMING_EVENTS and sched is not None:
+        # ping schedules run on real timers as a whole (a pong that is late by more than the ping interval on an
+        # overloaded box closes a healthy connection): any rejection there gets the one retry as well
+        if violated is None and sched is not None and (evn.get("ev") in TIMING_EVENTS or sched.get("ping")):
             # "stalled / leaked" judgements depend on real timers and on the quiescence detector: one retry with
             # generous slack before it counts (DESIGN §5 C18 soundness notes)
             retried += 1
@@ -477,7 +483,7 @@ def _run(ctx):
         if fixes != set(INV_OF_FIX):
             # the fully repaired protocol satisfies everything (slow upstream; full interleaving measured in design.d/C18.md)
             jobs["fixed"] = pool.submit(mc, ctx, "fixed", 2, 3, 2, 2, set(INV_OF_FIX),
-                                        INVS + ["CancelIsolated", "NoStaleEntry", "AllTracked"], spec="SpecQ", workers=4)
+                                        INVS + ["CancelIsolated", "NoStaleEntry", "AllTracked", "NoSpuriousPing"], spec="SpecQ", workers=4)
     # requests that cannot be encoded, client pings with an upstream that stops answering (slow upstream)
     jobs["mcx"] = pool.submit(mc, ctx, "x", 2, mcn, 1 if quick else 2, 1 if quick else 2, fixes, pos, spec="SpecQ", workers=4,
                               cfgset="ConfigsX")
@@ -605,7 +611,7 @@ def _run(ctx):
         "no source hook: only environment actions are scheduled (Subscribe, ctx cancel, server gates, frames); the code's internal "
         "steps run freely between two environment actions and are composed silently by the trace specification",
         "quiescence = no TCP byte/close in flight on any wrapped connection and no runnable goroutine (two consecutive samples)",
-        "ack/write timeouts 2 min; pings off except in the ping configurations (every 300 ms, pong timeout 100 ms, the server answers "
+        "ack/write timeouts 2 min; pings off except in the ping configurations (every 500 ms, pong timeout 150 ms, the server answers "
         "at once until a Mute step); idle timeout 0 or %d ms, waited for with slack and one retry" % IDLE_MS,
         "the upstream server fake and TLC are trusted; <= 3 subscribers, 2 option tuples, <= 3 frames per schedule",
     ]
